@@ -163,6 +163,14 @@ def run(ctx):
                          ("$numberLong", "100"), ("$serde_json::private::Number", 100)):
             v = {key: val}
             add(doc(ty, [v] if ty.endswith("[]") else v), False, "wrong-kind/number-smuggling-object")
+    # fractional number literals that a floating-point JSON parser turns into an integral double: non-integers, so non-conforming
+    # (the known findings K1/K2 of C13 apply to typed data through the same number reader; their classes are listed for C09 too)
+    literal_of = {}
+    for lit in ("1.00000000000000001", "4.0000000000000000001", "0.99999999999999999999", "2.0000000000000000001e0", "1e-400", "0.1e-400", "1e-324", "5e-325"):
+        for ty in ("uint8", "uint256", "int16", "uint64[]"):
+            d = doc(ty, ["@@LIT@@"] if ty.endswith("[]") else "@@LIT@@").replace('"@@LIT@@"', lit)
+            literal_of[d] = lit
+            add(d, False, "fractional-literal-rounded-by-the-json-parser")
     # ---- offences planted in random conforming documents
     for _ in range(60 if not thorough else 600):
         types, primary = tdgen.rand_types(rng, nstructs=rng.randrange(2, 6))
@@ -185,6 +193,8 @@ def run(ctx):
     mod = model_over_dumps(ctx, dumps, "c08_compute %s", "C09", timeout=1800)
     for (d, ok, cls), r, m in zip(cases, impl, mod):
         case = dict(op="TypedData", cls=cls, document=short(d, 420))
+        if d in literal_of:
+            case["number_literal"] = literal_of[d]
         ctx.count(cls)
         ctx.distinct(d)
         lib_vs_model(ctx, "typeddata-vs-model", case, r, m)
